@@ -1,7 +1,25 @@
 import PhreeqcVerif.Lemmas.Thermo
+/-!
+# C01 — speciation: property theorems
+
+Everything is over `Rat` with `ratOps f` for an ARBITRARY `f : TransFns Rat` (`log10`, `ln`, `sqrt`, `exp10` uninterpreted),
+for all inputs, token lists of any length, any fuel.
+
+1–2. `kCalc` (model of `k_calc`) is linear in the log K vector, reduces to the 1 atm expression at `P ≤ pRef`, to `log_k`
+     at 25 °C, to van 't Hoff without analytic terms; `delta_h` unit conversion.
+3–5. `rewriteToMasters` (substitution of non-master species, `trxn_add` + `trxn_combine`) preserves the residual of the
+     mass-action equation for every linear log K functional, and element/charge balance.
+6.   `speciateLm` (the assignment in `molalities()`) satisfies mass action.
+7.   the gate: `runModel` returns `ok` only in states where `residuals()` reports CONVERGED and `check_residuals()` is silent,
+     whatever the Newton step / "try again" decisions are; what the tests mean per unknown type.
+8.   read-outs, sums.   9. concrete instances.
+-/
 namespace PhreeqcVerif.C01
 open PhreeqcVerif PhreeqcVerif.Thermo PhreeqcVerif.Speciation
 
+/-! ### 1–2. log K(T, P) -/
+
+/-- `trxn_add` on the log K vector is `k_calc`-linear (both branches of the pressure test) -/
 theorem kCalc_addScaled (f : TransFns Rat) (p q : LogK Rat) (c T P : Rat) :
     letI := ratOps f
     kCalc (p.addScaled c q) T P = kCalc p T P + c * kCalc q T P := by
@@ -52,6 +70,18 @@ theorem dhToKJ_J (f : TransFns Rat) (x : Rat) :
     dhToKJ .J x = x / 1000 := by
   simp only [dhToKJ, NumOps.lit, NumOps.ofRat, id]
 
+/-- non-vacuity: above the reference pressure the volume term is present (so `P ≤ pRef` in `kCalc_pressure_off` matters),
+at it the 1 atm value is returned, and linearity on concrete vectors (with `ln := id`, i.e. `ln 10 = 10`) -/
+example : letI := ratOps (⟨id, id, id, id, id, id, id, id, id, id⟩ : TransFns Rat)
+    let p : LogK Rat := ⟨10329 / 1000, -3561 / 1000, 1078871 / 10000, 3252849 / 100000000, -515179 / 100, -3892561 / 100000, 56371390 / 100, 0, -278 / 10⟩
+    let q : LogK Rat := ⟨6352 / 1000, -2177 / 1000, 0, 0, 0, 0, 0, 0, 2627 / 100⟩
+    kCalc p 300 (2 * pRef) ≠ kCalc1atm p 300 ∧ kCalc p 300 pRef = kCalc1atm p 300 ∧
+    kCalc (p.addScaled 2 q) 300 (2 * pRef) = kCalc p 300 (2 * pRef) + 2 * kCalc q 300 (2 * pRef) ∧
+    kCalc q tRef pRef = 6352 / 1000 ∧ kCalc q 300 pRef ≠ 6352 / 1000 := by
+  decide +kernel
+
+/-! ### 6. `molalities()` -/
+
 theorem speciate_mass_action (f : TransFns Rat) (lk lg : Rat) (la : String → Rat) (body : List (String × Rat)) :
     letI := ratOps f
     speciateLm lk lg la body + lg = lk + evalBody la body := by
@@ -61,6 +91,8 @@ theorem speciate_residual (f : TransFns Rat) (K : LogK Rat → Rat) (lg : Rat) (
     letI := ratOps f
     la e.head = speciateLm (K e.k) lg la e.body + lg → residual la K e = 0 := by
   simp only [speciateLm, residual]; grind
+
+/-! ### 7. the convergence gate -/
 
 theorem iterate_sound (f : TransFns Rat) {σ : Type} (view : σ → GateCtx Rat × List (Unknown Rat)) (step : σ → σ)
     (fuel : Nat) (s s' : σ) :
@@ -217,5 +249,245 @@ theorem rewrite_preserves_balance (f : TransFns Rat) (drop : Rat → Bool) (inUs
   simp only [residual] at h2
   rw [h1] at h2 ⊢
   constructor <;> grind
+
+/-! ### 7b–8. the convergence tests, sums, read-outs -/
+
+theorem absv_eq_abs (f : TransFns Rat) (x : Rat) : letI := ratOps f; absv x = |x| := by
+  simp only [absv, NumOps.lit, NumOps.ofRat, id]
+  by_cases h : x < 0
+  · rw [abs_of_neg h]; grind
+  · rw [abs_of_nonneg (not_lt.mp h)]; grind
+
+theorem converged_mb (f : TransFns Rat) (c : GateCtx Rat) (us : List (Unknown Rat)) (u : Unknown Rat) :
+    letI := ratOps f
+    converged c us = true → u ∈ us → u.type = .mb →
+      0 ≤ u.moles ∧ (absv (u.moles - u.f) ≤ c.tol * u.moles ∨
+        absv (u.moles - u.f) ≤ f.sqrt (absv u.moles * c.minTotal) ∨ u.moles ≤ c.minTotal) := by
+  intro h hu ht
+  have h1 := (List.all_eq_true.mp h) u hu
+  simp only [fails, residualOf, ht, NumOps.lit, NumOps.ofRat, NumOps.sqrt, id] at h1
+  grind
+
+theorem converged_alk (f : TransFns Rat) (c : GateCtx Rat) (us : List (Unknown Rat)) (u : Unknown Rat) :
+    letI := ratOps f
+    converged c us = true → u ∈ us → u.type = .alk → absv (u.moles - u.f) ≤ c.tol * u.moles := by
+  intro h hu ht
+  have h1 := (List.all_eq_true.mp h) u hu
+  simp only [fails, residualOf, ht] at h1
+  grind
+
+theorem converged_cb (f : TransFns Rat) (c : GateCtx Rat) (us : List (Unknown Rat)) (u : Unknown Rat) :
+    letI := ratOps f
+    converged c us = true → u ∈ us → u.type = .cb →
+      absv (if c.phIsCb then 0 - u.f + u.moles else 0 - u.f) < c.tol * c.mu * c.massWater := by
+  intro h hu ht
+  have h1 := (List.all_eq_true.mp h) u hu
+  simp only [fails, residualOf, ht, NumOps.lit, NumOps.ofRat, id] at h1
+  grind
+
+theorem converged_mu (f : TransFns Rat) (c : GateCtx Rat) (us : List (Unknown Rat)) (u : Unknown Rat) :
+    letI := ratOps f
+    converged c us = true → u ∈ us → u.type = .mu →
+      absv (c.massWater * c.mu - 1 / 2 * u.f) ≤ c.tol * c.mu * c.massWater := by
+  intro h hu ht
+  have h1 := (List.all_eq_true.mp h) u hu
+  simp only [fails, residualOf, ht, NumOps.lit, NumOps.ofRat, id] at h1
+  grind
+
+theorem checkResiduals_mb (f : TransFns Rat) (c : GateCtx Rat) (us : List (Unknown Rat)) (u : Unknown Rat) :
+    letI := ratOps f
+    checkResiduals c us = true → u ∈ us → (u.type = .mb ∨ u.type = .alk) →
+      (absv (u.moles - u.f) < c.tol * u.moles ∨
+        absv (u.moles - u.f) ≤ f.sqrt (absv u.moles * c.minTotal) ∨ u.moles ≤ c.minTotal) := by
+  intro h hu ht
+  have h1 := (List.all_eq_true.mp h) u hu
+  rcases ht with ht | ht <;>
+  · simp only [checkFails, residualOf, ht, NumOps.sqrt] at h1
+    grind
+
+theorem checkResiduals_cb (f : TransFns Rat) (c : GateCtx Rat) (us : List (Unknown Rat)) (u : Unknown Rat) :
+    letI := ratOps f
+    checkResiduals c us = true → u ∈ us → u.type = .cb →
+      absv (if c.phIsCb then 0 - u.f + u.moles else 0 - u.f) < c.tol * c.mu * c.massWater := by
+  intro h hu ht
+  have h1 := (List.all_eq_true.mp h) u hu
+  simp only [checkFails, residualOf, ht, NumOps.lit, NumOps.ofRat, id] at h1
+  grind
+
+theorem checkResiduals_mu (f : TransFns Rat) (c : GateCtx Rat) (us : List (Unknown Rat)) (u : Unknown Rat) :
+    letI := ratOps f
+    checkResiduals c us = true → u ∈ us → u.type = .mu →
+      absv (c.massWater * c.mu - 1 / 2 * u.f) < c.tol * c.mu * c.massWater := by
+  intro h hu ht
+  have h1 := (List.all_eq_true.mp h) u hu
+  simp only [checkFails, residualOf, ht, NumOps.lit, NumOps.ofRat, id] at h1
+  grind
+
+theorem sumBy_append (f : TransFns Rat) (g : SpRec Rat → Rat) (a b : List (SpRec Rat)) :
+    letI := ratOps f; sumBy g (a ++ b) = sumBy g a + sumBy g b := by
+  induction a with
+  | nil => simp only [List.nil_append, sumBy, NumOps.lit, NumOps.ofRat, id]; grind
+  | cons s t ih => simp only [List.cons_append, sumBy, ih]; grind
+
+theorem total_append (f : TransFns Rat) (elt : String) (a b : List (SpRec Rat)) :
+    letI := ratOps f; total elt (a ++ b) = total elt a + total elt b :=
+  sumBy_append f _ a b
+
+theorem chargeBalance_append (f : TransFns Rat) (a b : List (SpRec Rat)) :
+    letI := ratOps f; chargeBalance (a ++ b) = chargeBalance a + chargeBalance b :=
+  sumBy_append f _ a b
+
+theorem readouts_consistent (f : TransFns Rat) (la : String → Rat) (lk lm lg : Rat) (body : List (String × Rat)) :
+    letI := ratOps f
+    pH la = - la "H+" ∧ satIndex la lk body = evalBody la body - lk ∧
+      satRatio la lk body = f.exp10 (satIndex la lk body) ∧ logActivity lm lg = lm + lg ∧
+      (logActivity (speciateLm lk lg la body) lg = lk + evalBody la body) := by
+  simp only [pH, satIndex, satRatio, logActivity, speciateLm, NumOps.lit, NumOps.ofRat, NumOps.exp10, id]
+  grind
+
+/-- the saturation index does not depend on the form of the phase reaction: `e` carries the reversed log K of the
+phase (`trxn_reverse_k` before and after `rewrite_eqn_to_secondary` in `tidy_phases`) -/
+theorem satIndex_rewrite (f : TransFns Rat) (drop : Rat → Bool) (inUse : String → Bool)
+    (defs : String → Option (Eqn Rat)) (la : String → Rat) (K : LogK Rat → Rat)
+    (hK : letI := ratOps f; ∀ (p q : LogK Rat) (c : Rat), K (p.addScaled c q) = K p + c * K q)
+    (hdrop : ∀ c, drop c = true → c = 0)
+    (hdefs : letI := ratOps f; ∀ n d, defs n = some d → d.head = n ∧ residual la K d = 0)
+    (fuel : Nat) (e e' : Eqn Rat) :
+    letI := ratOps f
+    rewriteToMasters drop inUse defs fuel e = some e' →
+      satIndex la (-(K e'.k)) e'.body = satIndex la (-(K e.k)) e.body := by
+  intro h
+  obtain ⟨h1, h2⟩ := Speciation.rewrite_residual f drop inUse defs la K hK hdrop hdefs fuel e e' h
+  simp only [residual, satIndex] at h2 ⊢
+  rw [h1] at h2
+  grind
+
+/-! ### 9. non-vacuity: a small carbonate network, and the gate on a two-unknown state -/
+
+namespace Ex
+/-- dummy transcendental functions for the concrete instances -/
+def f0 : TransFns Rat := ⟨id, id, id, id, id, id, id, id, id, id⟩
+
+def lk0 (k0 : Rat) : LogK Rat := ⟨k0, 0, 0, 0, 0, 0, 0, 0, 0⟩
+
+def inUse (n : String) : Bool := n == "H+" || n == "H2O" || n == "CO3-2" || n == "Ca+2"
+
+def hco3 : Eqn Rat := ⟨"HCO3-", [("CO3-2", 1), ("H+", 1)], lk0 (10329 / 1000)⟩
+def co2 : Eqn Rat := ⟨"CO2", [("HCO3-", 1), ("H+", 1), ("H2O", -1)], lk0 (6352 / 1000)⟩
+def cahco3 : Eqn Rat := ⟨"CaHCO3+", [("Ca+2", 1), ("HCO3-", 1)], lk0 (1106 / 1000)⟩
+
+def defs (n : String) : Option (Eqn Rat) :=
+  if n == "HCO3-" then some hco3 else if n == "CO2" then some co2 else if n == "CaHCO3+" then some cahco3 else none
+
+def la (n : String) : Rat :=
+  if n == "H+" then -7 else if n == "CO3-2" then -5 else if n == "H2O" then 0 else if n == "Ca+2" then -3
+  else if n == "HCO3-" then 10329 / 1000 - 12
+  else if n == "CO2" then 6352 / 1000 + 10329 / 1000 - 19
+  else if n == "CaHCO3+" then 1106 / 1000 + 10329 / 1000 - 15
+  else 0
+
+def K (k : LogK Rat) : Rat := k.k0
+def drop0 (c : Rat) : Bool := c == 0
+
+def view3 (e : Eqn Rat) : String × List (String × Rat) × Rat := (e.head, e.body, e.k.k0)
+end Ex
+
+open Ex in
+example : letI := ratOps f0
+    (rewriteToMasters drop0 inUse defs 20 co2).map view3
+      = some ("CO2", [("H+", 2), ("H2O", -1), ("CO3-2", 1)], 10329 / 1000 + 6352 / 1000) := by
+  decide +kernel
+
+open Ex in
+/-- CaHCO3+ (defined through the non-master HCO3-) in terms of the masters in use -/
+example : letI := ratOps f0
+    (rewriteToMasters drop0 inUse defs 20 cahco3).map view3
+      = some ("CaHCO3+", [("Ca+2", 1), ("CO3-2", 1), ("H+", 1)], 1106 / 1000 + 10329 / 1000) := by
+  decide +kernel
+
+open Ex in
+/-- fuel exhausted / species without defining equation: `none` -/
+example : letI := ratOps f0
+    (rewriteToMasters drop0 inUse defs 0 co2).map view3 = none ∧
+    (rewriteToMasters drop0 inUse defs 20 ⟨"X", [("Y", 1)], lk0 0⟩).map view3 = none := by
+  decide +kernel
+
+open Ex in
+theorem Ex.hK : letI := ratOps f0; ∀ (p q : LogK Rat) (c : Rat), K (p.addScaled c q) = K p + c * K q :=
+  fun _ _ _ => rfl
+
+open Ex in
+theorem Ex.hdrop : ∀ c, drop0 c = true → c = 0 := by
+  intro c h; simpa [drop0] using h
+
+open Ex in
+theorem Ex.hdefs : letI := ratOps f0; ∀ n d, defs n = some d → d.head = n ∧ residual la K d = 0 := by
+  intro n d h
+  unfold defs at h
+  split at h
+  · rename_i hn; cases h; exact ⟨(eq_of_beq hn).symm, by decide +kernel⟩
+  · split at h
+    · rename_i hn; cases h; exact ⟨(eq_of_beq hn).symm, by decide +kernel⟩
+    · split at h
+      · rename_i hn; cases h; exact ⟨(eq_of_beq hn).symm, by decide +kernel⟩
+      · cases h
+
+open Ex in
+/-- all hypotheses of `rewrite_mass_action_iff` hold on the carbonate network; its conclusion, obtained from the theorem,
+agrees with direct evaluation -/
+example : letI := ratOps f0
+    ∃ e', rewriteToMasters drop0 inUse defs 20 co2 = some e' ∧ e'.head = "CO2" ∧
+      residual la K e' = 0 ∧ (∀ p ∈ e'.body, inUse p.1 = true) := by
+  cases h : @rewriteToMasters Rat (ratOps f0) drop0 inUse defs 20 co2 with
+  | none => exact absurd h (by decide +kernel)
+  | some e' =>
+    have h1 := rewrite_residual_eq f0 drop0 inUse defs la K Ex.hK Ex.hdrop Ex.hdefs 20 co2 e' h
+    have h2 := rewrite_only_masters f0 drop0 inUse defs 20 co2 e' h
+    have h3 : @residual Rat (ratOps f0) la K co2 = 0 := by decide +kernel
+    exact ⟨e', rfl, h1.1, by rw [h1.2, h3], h2⟩
+
+open Ex in
+example : letI := ratOps f0
+    (rewriteToMasters drop0 inUse defs 20 co2).map
+        (fun e => (coefOf "H+" e.body, coefOf "CO3-2" e.body, coefOf "H2O" e.body, coefOf "HCO3-" e.body, residual la K e))
+      = some (2, 1, -1, 0, 0) := by
+  decide +kernel
+
+namespace Ex
+def ctx : GateCtx Rat := ⟨1 / 1000, 1 / 1000000000000000, 1 / 10, 1, false, false⟩
+/-- state = iteration counter; the mass-balance sum reaches the total at the third step; `fmu` = `Σ z²·moles` -/
+def view (fmu : Rat) (s : Nat) : GateCtx Rat × List (Unknown Rat) :=
+  (ctx, [⟨.mb, 1 / 1000, if s < 3 then 2 / 1000 else 1 / 1000, 0, 0⟩, ⟨.mu, 0, fmu, 0, 0⟩])
+def Outcome.toOption {σ : Type} : Outcome σ → Option σ
+  | .ok s => some s
+  | .error => none
+end Ex
+
+open Ex in
+/-- the gate lets a state through (`ok 3`); too few iterations: error; an ionic-strength residual exactly AT the tolerance
+passes `residuals()` (not converged only when `tol·μ·W < |r|`) but not `check_residuals()` (ERROR when `tol·μ·W ≤ |r|`): error -/
+example : letI := ratOps f0
+    Outcome.toOption (runModel (view (2 / 10)) (· + 1) (fun _ => none) 10 2 0) = some 3 ∧
+    Outcome.toOption (runModel (view (2 / 10)) (· + 1) (fun _ => none) 2 2 0) = none ∧
+    converged (view (1998 / 10000) 3).1 (view (1998 / 10000) 3).2 = true ∧
+    checkResiduals (view (1998 / 10000) 3).1 (view (1998 / 10000) 3).2 = false ∧
+    Outcome.toOption (runModel (view (1998 / 10000)) (· + 1) (fun _ => none) 10 2 0) = none ∧
+    -- a second pass requested once by `again`
+    Outcome.toOption (runModel (view (2 / 10)) (· + 1) (fun s => if s < 5 then some 5 else none) 10 2 0) = some 5 ∧
+    Outcome.toOption (runModel (view (2 / 10)) (· + 1) (fun s => if s < 5 then some 5 else none) 10 1 0) = none := by
+  decide +kernel
+
+open Ex in
+/-- `gate_sound` applied to the passing run -/
+example : letI := ratOps f0
+    converged (view (2 / 10) 3).1 (view (2 / 10) 3).2 = true ∧ checkResiduals (view (2 / 10) 3).1 (view (2 / 10) 3).2 = true := by
+  have h : @runModel Rat (ratOps f0) Nat _ _ (view (2 / 10)) (· + 1) (fun _ => none) 10 2 0 = .ok 3 := by
+    have : Outcome.toOption (@runModel Rat (ratOps f0) Nat _ _ (view (2 / 10)) (· + 1) (fun _ => none) 10 2 0) = some 3 := by
+      decide +kernel
+    revert this
+    cases @runModel Rat (ratOps f0) Nat _ _ (view (2 / 10)) (· + 1) (fun _ => none) 10 2 0 with
+    | ok s => intro h; simp only [Outcome.toOption, Option.some.injEq] at h; rw [h]
+    | error => intro h; cases h
+  exact gate_sound f0 _ _ _ 10 2 0 3 h
 
 end PhreeqcVerif.C01
